@@ -2,8 +2,8 @@
    w = 3 of order 16, sizes 8 and 16; the concrete outputs are also computed and compared with direct evaluation. *)
 From Coq Require Import List Arith Bool ZArith Lia.
 From VBase Require Import FieldOps.
-From VModel Require Import FFT.
-From VProofs Require Import FFTSpec FFTRefine FFTEval FFTOffset FFTF17.
+From VModel Require Import FFT FFTSplit.
+From VProofs Require Import FFTSpec FFTRefine FFTEval FFTOffset FFTSplit FFTF17.
 Import ListNotations.
 Open Scope nat_scope.
 
@@ -114,3 +114,36 @@ Qed.
 Example ex_permute : map val17 (permute O17 (z17 [0;1;2;3;4;5;6;7]%Z)) = [0;4;2;6;1;5;3;7]%Z /\
   permute O17 (permute O17 p16) = p16.
 Proof. split; [vm_compute; reflexivity | apply (permute_involutive O17 4); reflexivity]. Qed.
+
+(* four-step FFT of the concurrent build: hypotheses of split_radix_spec_tr_is_fft hold for n = 16 = 4^2 (stretch 1,
+   K = 1, s = 0) and n = 8 = 2*4 (stretch 2, K = 0, s = 1); the faithful swap-loop transpositions agree with the
+   specification and the faithful split_radix_fft equals fft_in_place on these inputs (by computation) *)
+Example ex_split_radix_16 : exists tw,
+  get_twiddles O17 4 r17 (2 ^ 4) = Some tw /\ length p16 = 2 ^ (2 + 2 + 0) /\ length tw = 2 ^ (2 + 1 + 0) /\
+  tw_ok O17 tw (2 + 2 + 0) (r17 4) /\ root_cond O17 (2 + 2 + 0) (r17 4) /\
+  split_radix_fft_spec_tr O17 p16 tw = Some (fft_in_place_top O17 p16 tw).
+Proof.
+  destruct (get_twiddles_correct O17 f17_laws 4 r17 3 (le_n _)) as (tw & H1 & H2 & H3).
+  exists tw. repeat split; try assumption; try reflexivity; try exact ex_root_cond_16.
+  exact (split_radix_spec_tr_is_fft O17 f17_laws tw 1 0 (r17 4) p16 (Nat.le_0_l 1) eq_refl H2 H3 ex_root_cond_16).
+Qed.
+
+Example ex_split_radix_8 : exists tw,
+  get_twiddles O17 4 r17 (2 ^ 3) = Some tw /\
+  split_radix_fft_spec_tr O17 p8 tw = Some (fft_in_place_top O17 p8 tw).
+Proof.
+  destruct (get_twiddles_correct O17 f17_laws 4 r17 2 ltac:(lia)) as (tw & H1 & H2 & H3).
+  exists tw. split; [exact H1|].
+  exact (split_radix_spec_tr_is_fft O17 f17_laws tw 0 1 (r17 3) p8 (le_n 1) eq_refl H2 H3 ex_root_cond_8).
+Qed.
+
+Example ex_split_radix_values :
+  let tw16 := match get_twiddles O17 4 r17 16 with Some t => t | None => [] end in
+  let tw8 := match get_twiddles O17 4 r17 8 with Some t => t | None => [] end in
+  option_map (map val17) (split_radix_fft O17 p16 tw16) = Some (map val17 (fft_in_place_top O17 p16 tw16)) /\
+  option_map (map val17) (split_radix_fft O17 p8 tw8) = Some (map val17 (fft_in_place_top O17 p8 tw8)) /\
+  option_map (map val17) (transpose_square_stretch O17 p16 4 1) = Some (map val17 (transpose_spec O17 4 1 p16)) /\
+  option_map (map val17) (transpose_square_stretch O17 p8 2 2) = Some (map val17 (transpose_spec O17 2 2 p8)) /\
+  option_map (map val17) (evaluate_poly_concurrent O17 p16 tw16)
+    = Some (map (fun i => val17 (peval O17 p16 (fpow O17 (r17 4) i))) (seq 0 16)).
+Proof. cbv zeta. repeat split; vm_compute; reflexivity. Qed.
